@@ -1,5 +1,6 @@
 #!/bin/bash
 # tools/sweep.sh <out-file> <tier> <seed>... : runs every check at the given seeds, one line per run. Evidence goes to a scratch dir.
+mkdir -p /tmp/wt
 OUT="$1"; TIER="$2"; shift 2
 for S in "$@"; do
   for P in ${PROPS:-C01 C02 C03 C04 C05 C06 C07 C08 C09 C10 C11 C12 C13 C14 C15 C16 C17 C18 C19}; do
